@@ -124,8 +124,8 @@ class Vec(Sym):
         if n is None:
             n = ctx.int('len(%s)' % name, report=report)
             ctx.assume(n >= 0)
-            if BOUND is not None:
-                ctx.assume(n <= BOUND)
+        if BOUND is not None and report:
+            ctx.assume(z3.And(n <= BOUND, n >= 0))
         if kind == 'fp':
             at = z3.Array(ctx.name(name + '.t'), I, I)
             av = z3.Array(ctx.name(name + '.v'), I, R)
@@ -646,6 +646,35 @@ class Numpy:
         return self._cmp_out(ctx, a, b, out, lambda x, y: x == y)
 
 
+def _np_searchsorted(self, ctx, a, v, side='left', sorter=None):
+    """numpy.searchsorted on a SORTED 1-D int array (numpy leaves the unsorted case unspecified): the insertion point."""
+    if sorter is not None or not (isinstance(a, Vec) and a.kind == 'int'):
+        raise Unsupported('searchsorted variant')
+    x = zint(v)
+    p = ctx.int('searchsorted(%s)' % a.name, report=False)
+    if side == 'left':
+        lo, hi = (lambda e: e < x), (lambda e: e >= x)
+    elif side == 'right':
+        lo, hi = (lambda e: e <= x), (lambda e: e > x)
+    else:
+        raise PyRaise('ValueError', note='side')
+    ctx.assume(z3.And(0 <= p, p <= a.n), axiom='numpy.searchsorted(a, v, side) requires sorted a; then 0 <= p <= len, a[j] < v (<=) for j < p, a[j] >= v (>) for j >= p')
+    # callee precondition: the array is sorted (proved at the call site, then used)
+    # quantify in the coordinates of the underlying array, so that E-matching finds base[k] terms (a view reads base[j+off])
+    root, off = a, z3.IntVal(0)
+    while root.base is not None:
+        root, off = root.base[0], off + root.base[1]
+    off = z3.simplify(off)
+    n = a.n
+    ctx.lemma('searchsorted-precondition:sorted', qforall(2, lambda i, j: z3.Implies(z3.And(off <= i, i <= j, j < off + n), root.sel(i) <= root.sel(j))))
+    ctx.assume(qforall(1, lambda m: z3.Implies(z3.And(off <= m, m < off + p), lo(root.sel(m)))))
+    ctx.assume(qforall(1, lambda m: z3.Implies(z3.And(off + p <= m, m < off + n), hi(root.sel(m)))))
+    return SInt(p)
+
+
+Numpy.np_searchsorted = _np_searchsorted
+
+
 class Linalg:
     def sym_getattr(self, ctx, name):
         if name == 'norm':
@@ -735,6 +764,37 @@ def _sym_max(self, ctx):
 
 
 SList.sym_max = _sym_max
+
+
+class SRange(Sym):
+    """range(start, stop) with symbolic bounds (step 1)."""
+
+    def __init__(self, start, stop):
+        self.start, self.stop = start, stop
+
+    @staticmethod
+    def make(ctx, *a):
+        if len(a) == 1:
+            return SRange(z3.IntVal(0), zint(a[0]))
+        if len(a) == 2:
+            return SRange(zint(a[0]), zint(a[1]))
+        raise Unsupported('range with a step')
+
+    def seq_len(self, ctx):
+        return z3.If(self.stop > self.start, self.stop - self.start, 0)
+
+    def seq_at(self, ctx, i):
+        return SInt(self.start + i)
+
+    def length(self, ctx):
+        return SInt(self.seq_len(ctx))
+
+    def iterate(self, ctx):
+        n = z3.simplify(self.seq_len(ctx))
+        if z3.is_int_value(n):
+            s = z3.simplify(self.start)
+            return [SInt(s + k) for k in range(n.as_long())]
+        raise Unsupported('iteration over a range of symbolic length (needs a loop contract)')
 
 
 class Enumerated(Sym):
